@@ -3,7 +3,7 @@ import ast
 import re
 
 from ..model import AnalysisError, Model, walk_no_nested, norm_stmt
-from .. import flow, protocol, dispatch, siblings, evalexpr, replay
+from .. import flow, protocol, dispatch, siblings, evalexpr, replay, sem, bitmachine
 
 EXPLANATION = (
     'Decided on codecs/oer.py: (R1) the INTEGER width table of Integer.set_restricted_to_range equals X.696 10 on every cell the boundary '
@@ -124,54 +124,121 @@ def check(ctx):
     # decode/encode use fmt+length consistently
     enc = model.func(OER, 'Integer.encode')
     dec = model.func(OER, 'Integer.decode')
-    ok = 'struct.pack(self.fmt, data)' in ast.unparse(enc) and 'struct.unpack(self.fmt, decoder.read_bytes(self.length))' in ast.unparse(dec)
+    ve, vd = sem.View(enc), sem.View(dec)
+    packs = [c for c in sem.method_calls(enc, 'pack', ve) if c.args and ve.text(c.args[0]) == 'self.fmt']
+    unpacks = [c for c in sem.method_calls(dec, 'unpack', vd) if len(c.args) >= 2 and vd.text(c.args[0]) == 'self.fmt'
+               and re.search(r'read_bytes\(self\.length\)', vd.text(c.args[1]))]
+    ok = bool(packs) and bool(unpacks)
     ctx.instance('C06.R1', 'Integer.encode/decode pack and unpack with self.fmt / self.length', 'ok' if ok else 'VIOLATION', node=enc, file=OER)
     if not ok:
         ctx.violation('C06.R1', OER, enc, Model.qual(enc), 'fixed-size INTEGER no longer packs with self.fmt and reads self.length octets', stmt='fmt/length use')
 
-    # ---- R2
+    # ---- R2  (bounded evaluation of the primitive summaries, sa/bitmachine.py, against X.696 8.6)
+    enc_cls, dec_cls = model.cls(OER, 'Encoder'), model.cls(OER, 'Decoder')
+    E = bitmachine.Machine(model, enc_cls, 'enc')
+    D = bitmachine.Machine(model, dec_cls, 'dec')
+    PAD = '10' * 24
+
+    def ref_ld(n):
+        if n < 128:
+            return format(n, '08b')
+        k = (n.bit_length() + 7) // 8
+        return format(0x80 | k, '08b') + format(n, '0%db' % (8 * k))
+
+    def evaluate(rule, what, node, cases):
+        n_ok = n_und = 0
+        first_bad = und = None
+        for label, thunk in cases:
+            try:
+                msg = thunk()
+            except bitmachine.Undecided as e:
+                n_und += 1
+                und = und or '%s: %s' % (label, e)
+                continue
+            except bitmachine.Raised as e:
+                msg = 'raises %s' % e.name
+            if msg is None:
+                n_ok += 1
+            elif first_bad is None:
+                first_bad = (label, msg)
+        status = 'VIOLATION' if first_bad else ('ok' if n_ok else 'undecided')
+        ctx.instance(rule, '%s: %d cases evaluated, %d undecided' % (what, n_ok, n_und), status, und or '', nontrivial=n_ok > 0, node=node, file=OER)
+        if first_bad:
+            ctx.violation(rule, OER, node, Model.qual(node), '%s, %s: %s' % (what, first_bad[0], first_bad[1]), stmt=what)
+        return n_ok
+
     fe = model.func(OER, 'Encoder.append_length_determinant')
     fd = model.func(OER, 'Decoder.read_length_determinant')
-    se, sd = ast.unparse(fe), ast.unparse(fd)
-    ok = 'if value < 128:' in se and 'self.append_non_negative_binary_integer(value, 8)' in se and 'self.append_u8(128 | length)' in se and 'if length > 127:' in se
-    ctx.instance('C06.R2', 'Encoder.append_length_determinant: < 128 short form, else 0x80|n + n octets, n <= 127', 'ok' if ok else 'VIOLATION', node=fe, file=OER)
+
+    def ld_enc(n):
+        def thunk():
+            bits, _ = E.run('append_length_determinant', [n], '')
+            if bits != ref_ld(n):
+                return 'X.696 8.6 prescribes %s, the encoder emits %s' % (ref_ld(n), bits)
+            return None
+        return thunk
+
+    def ld_dec(n):
+        def thunk():
+            got, pos = D.run('read_length_determinant', [], ref_ld(n) + PAD, 0)
+            if got != n or pos != len(ref_ld(n)):
+                return 'the decoder reads %r (ending at bit %d) from %s' % (got, pos, ref_ld(n))
+            return None
+        return thunk
+    LD = [0, 1, 2, 126, 127, 128, 129, 255, 256, 65535, 65536, 2 ** 24, 2 ** 32 - 1]
+    ne = evaluate('C06.R2', 'length determinant encoder', fe, [('length %d' % n, ld_enc(n)) for n in LD])
+    evaluate('C06.R2', 'length determinant decoder', fd, [('length %d' % n, ld_dec(n)) for n in LD])
+    # the long form of the encoder builds its octets in a loop (not evaluated): its first octet is 0x80 | number of octets
+    marks = [n for n in walk_no_nested(fe) if isinstance(n, ast.BinOp) and isinstance(n.op, ast.BitOr)
+             and any(isinstance(x, ast.Constant) and x.value == 0x80 for x in (n.left, n.right))]
+    ok = bool(marks)
+    ctx.instance('C06.R2', 'Encoder.append_length_determinant long form starts with 0x80 | n', 'ok' if ok else 'VIOLATION', node=fe, file=OER)
     if not ok:
-        ctx.violation('C06.R2', OER, fe, Model.qual(fe), 'length determinant encoder differs from X.696 8.6 (short form 0..127, long form 0x80 | number of octets)', stmt='length determinant encoder')
-    ok = 'if value & 128:' in sd and 'length = value & 127' in sd and 'self.read_non_negative_binary_integer(8 * length)' in sd
-    ctx.instance('C06.R2', 'Decoder.read_length_determinant: & 0x80, & 0x7f', 'ok' if ok else 'VIOLATION', node=fd, file=OER)
-    if not ok:
-        ctx.violation('C06.R2', OER, fd, Model.qual(fd), 'length determinant decoder differs from X.696 8.6', stmt='length determinant decoder')
+        ctx.violation('C06.R2', OER, fe, Model.qual(fe), 'length determinant encoder differs from X.696 8.6 (long form 0x80 | number of octets)', stmt='length determinant encoder')
 
     # ---- R3
     fe = model.func(OER, 'Enumerated.encode')
     fd = model.func(OER, 'Enumerated.decode')
-    cmp_ = [n for n in walk_no_nested(fe) if isinstance(n, ast.Compare) and len(n.ops) == 2]
-    ok = len(cmp_) == 1 and ast.unparse(cmp_[0]) == '0 <= value <= 127'
-    ctx.instance('C06.R3', 'Enumerated.encode short form iff 0 <= value <= 127', 'ok' if ok else 'VIOLATION', node=fe, file=OER)
-    if not ok:
-        ctx.violation('C06.R3', OER, fe, Model.qual(fe), 'X.696 11: enumeration values 0..127 use the one-octet short form, all others the long form', stmt='short form boundary')
-    src = ast.unparse(fe)
-    ok = 'offset = encoder.number_of_bits' in src and 'encoder.append_integer(value)' in src and 'encoder.set_bit(offset)' in src
-    ctx.instance('C06.R3', 'Enumerated.encode long form = integer with the top bit of the length octet set', 'ok' if ok else 'VIOLATION', node=fe, file=OER)
-    if not ok:
-        ctx.violation('C06.R3', OER, fe, Model.qual(fe), 'the long form must set the top bit of the first octet (0x80 | number of octets)', stmt='long form')
-    first = fd.body[0]
-    ok = isinstance(first, ast.If) and ast.unparse(first.test) == 'decoder.peek_bit()' and 'decoder.clear_bit()' in ast.unparse(first.body[0]) \
-        and 'decoder.read_integer()' in ast.unparse(first.body[1]) and 'decoder.read_byte()' in ast.unparse(first.orelse[0])
-    ctx.instance('C06.R3', 'Enumerated.decode looks at the top bit before consuming', 'ok' if ok else 'VIOLATION', node=fd, file=OER)
-    if not ok:
-        ctx.violation('C06.R3', OER, fd, Model.qual(fd), 'the decoder no longer discriminates short/long form by the top bit of the first octet before reading', stmt='form discrimination')
+    pe, pd = flow.param_names(fe), flow.param_names(fd)
+
+    def ref_enum(v):
+        if 0 <= v <= 127:
+            return format(v, '08b')
+        k = 1
+        while not (-(1 << (8 * k - 1)) <= v < (1 << (8 * k - 1))):
+            k += 1
+        return format(0x80 | k, '08b') + format(v & ((1 << (8 * k)) - 1), '0%db' % (8 * k))
+
+    def en_case(v):
+        def thunk():
+            bits, _ = E.run_fn(fe, pe[2], ['item', None], {'self.data_to_value[ARG0]': v, 'self.data_to_value': {'item': v}}, '')
+            if bits != ref_enum(v):
+                return 'X.696 11 prescribes %s, the encoder emits %s' % (ref_enum(v), bits)
+            got, pos = D.run_fn(fd, pd[1], [None], {'self.value_to_data': {v: 'item'}, 'self.has_extension_marker': False}, bits + PAD, 0)
+            if got != 'item' or pos != len(bits):
+                return 'the decoder finds %r (ending at bit %d) in %s' % (got, pos, bits)
+            return None
+        return thunk
+    evaluate('C06.R3', 'ENUMERATED short/long form', fe, [('value %d' % v, en_case(v)) for v in (0, 1, 2, 126, 127, 128, 129, 255, 256, 32767, 32768, 65536, -1, -2, -128, -129, -32768, -32769)])
 
     # ---- R4
     fe = model.func(OER, 'encode_tag')
     fd = model.func(OER, 'Decoder.read_tag')
     ce = sorted({n.value for n in ast.walk(fe) if isinstance(n, ast.Constant) and isinstance(n.value, int) and not isinstance(n.value, bool)})
     cd = sorted({n.value for n in ast.walk(fd) if isinstance(n, ast.Constant) and isinstance(n.value, int) and not isinstance(n.value, bool)})
-    ok = ce == [0, 7, 63, 127, 128] and 'number < 63' in ast.unparse(fe)
+    eps = sem.paths(fe, positional=True) or []
+    low = sem.ccond(sem.parse_expr('ARG0 < 63'))
+    ok = {63, 127, 128} <= set(ce) <= {0, 1, 7, 8, 63, 127, 128} and any(p.has(low[0], low[1]) for p in eps) and any(p.has(low[0], not low[1]) for p in eps)
     ctx.instance('C06.R4', 'encode_tag constants %s' % ce, 'ok' if ok else 'VIOLATION', node=fe, file=OER)
     if not ok:
         ctx.violation('C06.R4', OER, fe, Model.qual(fe), 'X.696 8.7: tag numbers 0..62 in one octet, 63 (0x3f) announces base-128 octets with continuation bit 0x80; found constants %s' % ce, stmt='encode_tag constants')
-    ok = cd == [0, 63, 128] and 'byte & 63 == 63' in ast.unparse(fd)
+
+    def is63(x):
+        return isinstance(x, ast.Constant) and x.value == 63
+    t63 = [n for n in walk_no_nested(fd) if isinstance(n, ast.Compare) and len(n.ops) == 1 and isinstance(n.ops[0], ast.Eq)
+           and any(isinstance(a_, ast.BinOp) and isinstance(a_.op, ast.BitAnd) and (is63(a_.left) or is63(a_.right)) and is63(b_)
+                   for a_, b_ in ((n.left, n.comparators[0]), (n.comparators[0], n.left)))]
+    ok = {63, 128} <= set(cd) <= {0, 1, 63, 127, 128} and bool(t63)
     ctx.instance('C06.R4', 'Decoder.read_tag constants %s' % cd, 'ok' if ok else 'VIOLATION', node=fd, file=OER)
     if not ok:
         ctx.violation('C06.R4', OER, fd, Model.qual(fd), 'tag reader constants %s differ from {0x3f, 0x80}' % cd, stmt='read_tag constants')
@@ -202,17 +269,31 @@ def check(ctx):
     if n4 < 60:
         raise AnalysisError('C06.R4 compared only %d class tags' % n4)
 
-    # ---- R5
+    # ---- R5: the size attribute gets a value (the fixed size) only on paths that established
+    #          not has_extension_marker  and  minimum == maximum
     for qual, attr in (('KnownMultiplierStringType.__init__', 'number_of_bytes'), ('BitString.__init__', 'number_of_bits'), ('OctetString.set_size_range', 'number_of_bytes')):
         f = model.func(OER, qual)
-        sets = [n for n in walk_no_nested(f) if isinstance(n, ast.Assign) and ast.unparse(n.targets[0]) == 'self.' + attr
-                and not (isinstance(n.value, ast.Constant) and n.value.value is None)]
-        ok = bool(sets)
-        for s in sets:
-            gs = ' && '.join(('' if pol else 'not ') + ast.unparse(t) for t, pol in flow.guards_of(s, f))
-            if not ('not has_extension_marker' in gs and 'minimum == maximum' in gs):
-                ok = False
-        ctx.instance('C06.R5', '%s sets %s only for a non-extensible single size' % (Model.qual(f), attr), 'ok' if ok else 'VIOLATION', node=f, file=OER)
+        cls_ = f._cls
+        ps = sem.paths(f, resolver=sem.class_resolver(cls_))
+        if ps is None:
+            ctx.instance('C06.R5', '%s sets %s' % (Model.qual(f), attr), 'undecided', 'too many paths', nontrivial=False, node=f, file=OER)
+            continue
+        eq = sem.ccond(sem.parse_expr('minimum == maximum'))
+        nsets = 0
+        ok = True
+        for p in ps:
+            for ev in p.events:
+                if ev[0] == 'store' and ev[1].startswith('self.%s = ' % attr) and len(ev) > 4:
+                    val = ev[3]
+                    if isinstance(val, ast.Constant) and val.value is None:
+                        continue
+                    nsets += 1
+                    before = {(c[0], c[1]) for c in p.conds[:ev[4]]}
+                    if not (('has_extension_marker', False) in before and (eq[0], eq[1]) in before):
+                        ok = False
+        if nsets == 0:
+            ok = False
+        ctx.instance('C06.R5', '%s sets %s only for a non-extensible single size (%d assignments on %d paths)' % (Model.qual(f), attr, nsets, len(ps)), 'ok' if ok else 'VIOLATION', node=f, file=OER)
         if not ok:
             ctx.violation('C06.R5', OER, f, Model.qual(f), 'the fixed-size form (no length prefix) must be chosen only when the SIZE constraint is not extensible and has a single value (X.696 15/23)',
                           stmt='fixed-size decision')
@@ -250,19 +331,29 @@ def check(ctx):
         # Python vs C generator expression
         cf = model.func(COER, '_Generator.format_sequence_additions')
         ml = model.mod(COER).functions.get('get_sequence_additions_mask_length')
+        cv = sem.View(cf)
         asg = [a for a in walk_no_nested(cf) if isinstance(a, ast.Assign) and ast.unparse(a.targets[0]) == 'addition_mask_unused_bits']
-        if ml is None or len(asg) != 1:
-            raise AnalysisError('C generator extension mask expressions not found')
+        if ml is None:
+            raise AnalysisError('C generator: get_sequence_additions_mask_length vanished')
         diff = None
-        for n in range(1, 65):
-            r, _ = evalexpr.run_function(ml, {flow.param_names(ml)[0]: None, 'len(additions)': n, 'len(%s)' % flow.param_names(ml)[0]: n})
-            cu = evalexpr.ev(asg[0].value, {'addition_mask_length': r, 'len(type_.additions)': n})
-            if n in py_unused and (r + 1, cu) != py_unused[n]:
-                diff = (n, r + 1, cu, py_unused[n])
-                break
-        ctx.instance('C06.R6', 'Python codec and C generator agree on (bitmap length, unused bits) for 1..64 additions', 'ok' if diff is None else 'VIOLATION', node=cf, file=COER)
+        decided_c = 0
+        if len(asg) == 1:
+            expr = cv.expr(asg[0].value)
+            for n in range(1, 65):
+                try:
+                    r, _ = evalexpr.run_function(ml, {flow.param_names(ml)[0]: [None] * n, 'len(additions)': n, 'len(%s)' % flow.param_names(ml)[0]: n})
+                    cu = evalexpr.ev(expr, {'addition_mask_length': r, 'len(type_.additions)': n, 'number_of_additions': n,
+                                            'get_sequence_additions_mask_length(type_.additions)': r})
+                except (evalexpr.Unsupported, KeyError, TypeError):
+                    continue
+                decided_c += 1
+                if n in py_unused and (r + 1, cu) != py_unused[n]:
+                    diff = (n, r + 1, cu, py_unused[n])
+                    break
+        ctx.instance('C06.R6', 'Python codec and C generator agree on (bitmap length, unused bits), %d of 64 addition counts decided' % decided_c,
+                     'ok' if diff is None and decided_c else ('undecided' if diff is None else 'VIOLATION'), nontrivial=decided_c > 0, node=cf, file=COER)
         if diff is not None:
-            ctx.violation('C06.R6', COER, asg[0], Model.qual(cf), 'with %d additions the C generator emits (length %s, unused %s) and the Python codec %s' % diff, stmt='python vs c bitmap header')
+            ctx.violation('C06.R6', COER, asg[0], Model.qual(cf), 'for %d additions the C generator writes length=%d unused=%d, the Python codec %s' % diff, stmt='generator bitmap header')
 
     # ---- R7
     n7 = 0
